@@ -317,7 +317,10 @@ class World:
             return exc(e), [], a
         # (`Unit(q, registry=r)` may hand back a cached unit made through a shallow copy of r: "the left
         # operand's registry" is the registry object the left UNIT carries)
-        return ("mixed", cold, warm, ua.registry is ub.registry), [], a
+        # can the left registry resolve the right operand's symbols at all?  (the rule functions fall back to
+        # the right operand's registry when it cannot: `_multiply_units` / `_divide_units`, SymbolNotFoundError)
+        left_knows = all(not isinstance(_pure_lookup(str(sym), ua.registry.lut), str) for sym in ub.expr.free_symbols)
+        return ("mixed", cold, warm, ua.registry is ub.registry, left_knows), [], a
 
     # ------------------------------------------------------------------ observations (non-mutating)
     def observe(self, i):
@@ -500,7 +503,8 @@ def oracle(hist):
         if st[0] == "mixed" and out[0] == "mixed":
             same = "same-registry" if out[3] else "two-registries"
             if out[1] != "left":
-                bad(f"mixed-result-registry|{st[3]}|{same}|{out[1]}",
+                lacks = "" if out[4] else "|left-registry-lacks-the-symbol"
+                bad(f"mixed-result-registry|{st[3]}|{same}|{out[1]}{lacks}",
                     f"step {k} {st}: the result belongs to {out[1]} registry, not to the left operand's", k)
             elif out[2] != "left":
                 bad(f"mixed-result-registry|cached-result-of-another-registry|{st[3]}",
